@@ -8,6 +8,7 @@ of the layout is recomputed here.
 import ast
 import io
 import os
+import re
 import sys
 import tokenize
 import warnings
@@ -52,7 +53,7 @@ TEMPLATES = {
     'asg': [["x{k} = p({k})"], ["x{k} = [p({k}), {k}][1]"]],
     'echo': [["v({k})"], ["(v({k}))"]],
     'prn': [["p({k}, '{o}')"]],
-    'exc': [["rz({k}, ValueError('m{k}'))"], ["(rz({k}, ValueError('m{k}: detail')))"]],
+    'exc': [["rz({k}, ValueError('m{k}'))"], ["(rz({k}, ValueError('m{k}: detail')))"], ["rze({k}, '1 +')"], ["rze({k}, 'x{k}.missing')"]],
     'star': [["from os.path import *"], ["from collections import *  # star"]],
     'pair2': [["x{k} = p({k}, '{o}')", "y{k} = {k}"]],
     'f9': [["if False:", "    y{k} = 0", "# a note in column 0", "else: x{k} = p({k}, '{o}')"],
@@ -226,6 +227,18 @@ def real_parse(text):
     return 'parts', parts
 
 
+_DIR_RE = re.compile(r'#\s*x?doc(?:test)?:\s*(.*)$', re.I)
+
+
+def count_directives(line):
+    """number of options in the directive comment of a rendered line (comma- or blank-separated)"""
+    idx = line.rfind('#')                 # the comment, not a '#' inside a string literal (templates keep strings in front)
+    m = _DIR_RE.match(line[idx:]) if idx >= 0 else None
+    if not m or m.group(1).rstrip().endswith(("'", '"')):      # directive-looking text inside a string literal of a template
+        return 0
+    return len([t for t in re.split(r',|\s+(?=[+-])', m.group(1)) if t.strip()])
+
+
 def compare_parse(case, textlines):
     """returns list of (field, expected, observed)"""
     bad = []
@@ -286,6 +299,8 @@ def compare_parse(case, textlines):
             except Exception as ex:           # the lazy directive extraction of a part may raise
                 bad.append(('part%d.directives' % x, 'a list', 'raised %r' % (ex,)))
                 continue
+            if ndir:
+                ndir = sum(count_directives(textlines[j - 1]) for j in range(a, b + 1)) or ndir     # several options in one comment
             want = (a - 1, b - a + 1, max(0, wb - wa + 1), mode, ndir, inl)
             if obs != want:
                 bad.append(('part%d(offset,nexec,nwant,mode,ndir,inline)' % x, want, obs))
